@@ -100,6 +100,11 @@ func H_C10_parse(n int) {
 	vAssert("valid-iff-parses", (verr == nil) == (err == nil))
 	sv, serr := DefaultParser(string(in), r)
 	vAssert("string-agrees", (serr == nil) == (err == nil) && sv == v)
+	if serr != nil {
+		// the typed error a caller with string input can extract (errors.As with the input's own type)
+		_, typedS := serr.(*NumberFormatError[string])
+		vAssert("string-typed-zero", typedS && sv == 0)
+	}
 	var u Number
 	uerr := u.UnmarshalText(in)
 	vAssert("unmarshaltext", (uerr == nil) == (ok || n == 0) && (uerr != nil || uint64(u) == want))
